@@ -122,37 +122,54 @@ func RunDiam(sc *Scenario) *History {
 	if sc.Prop == "C08" {
 		addr = rfAddr
 	}
-	done := make(chan struct{})
-	go func() {
-		defer close(done)
-		t := rt.NewTask(0, "peer")
-		t.Adopt()
-		defer rt.Release()
-		cl := newDiamClient(addr)
-		for i := range sc.Tasks[0].Ops {
-			op := &sc.Tasks[0].Ops[i]
-			res := &OpResult{Op: *op, Task: 0, StartNs: rt.Now()}
-			simnet.SetCurOp(t, op.ID)
-			switch op.Kind {
-			case "sleep":
-				time.Sleep(time.Duration(op.SleepNs))
-				res.Done = true
-			case "dbset":
-				SetQuota(op.Supi, op.RG, op.TopUp)
-				res.Done = true
-			case "ccr", "sur":
-				res.Diam = execDiam(cl, op)
-				res.Done = true
+	done := make(chan struct{}, len(sc.Tasks))
+	results := make([][]*OpResult, len(sc.Tasks))
+	for ti := range sc.Tasks {
+		ti := ti
+		tk := &sc.Tasks[ti]
+		go func() {
+			defer func() { done <- struct{}{} }()
+			t := rt.NewTask(tk.ID, fmt.Sprintf("peer%d", tk.ID))
+			t.Adopt()
+			defer rt.Release()
+			if tk.StartNs > 0 {
+				time.Sleep(time.Duration(tk.StartNs))
 			}
-			res.EndNs = rt.Now()
-			h.Ops = append(h.Ops, res)
-		}
-		for _, cn := range cl.conns {
-			cn.Close()
-		}
-	}()
-	<-done
+			cl := newDiamClient(addr)
+			for i := range tk.Ops {
+				op := &tk.Ops[i]
+				res := &OpResult{Op: *op, Task: tk.ID, StartNs: rt.Now()}
+				simnet.SetCurOp(t, op.ID)
+				switch op.Kind {
+				case "sleep":
+					time.Sleep(time.Duration(op.SleepNs))
+					res.Done = true
+				case "dbset":
+					SetQuota(op.Supi, op.RG, op.TopUp)
+					res.Done = true
+				case "ccr", "sur":
+					res.Diam = execDiam(cl, op)
+					res.Done = true
+				}
+				res.EndNs = rt.Now()
+				results[ti] = append(results[ti], res)
+			}
+			for _, cn := range cl.conns {
+				cn.Close()
+			}
+		}()
+	}
+	for range sc.Tasks {
+		<-done
+	}
+	for _, r := range results {
+		h.Ops = append(h.Ops, r...)
+	}
 	h.SimEndNs = rt.Now()
+	for _, a := range sc.Accounts {
+		q, ok := Quota(a.Supi, a.RG)
+		h.Final = append(h.Final, AcctState{Supi: a.Supi, RG: a.RG, Quota: q, HasQuota: ok})
+	}
 	h.Msgs = w.Net.Msgs()
 	h.Fired = w.Net.Fired()
 	h.Tasks = rt.End()
